@@ -552,6 +552,9 @@ def run_conc_close(case, stats):
         step["n"] += 1
         if step["n"] <= case["close_at"]:
             return 0 if 0 in runnable else runnable[0]
+        if step["n"] > case["close_at"] + 40 and step["n"] % 2:
+            # (fairness: a closer that keeps itself runnable without finishing must not starve the reader)
+            return 0 if 0 in runnable else runnable[0]
         return 1 if 1 in runnable else runnable[0]
 
     driver = Driver(choose)
